@@ -296,10 +296,13 @@ class CacheSet(object):
 
     def get(self, id, cls):
         try:
-            return self.caches[cls.__name__].get(id)
+            cache = self.caches[cls.__name__]
         except KeyError:
-            self.caches[cls.__name__] = CacheFactory(*self.args, **self.kw)
-            return self.caches[cls.__name__].get(id)
+            # setdefault: two threads may get here together on first use
+            # of a class; both must end up with the same CacheFactory
+            cache = self.caches.setdefault(
+                cls.__name__, CacheFactory(*self.args, **self.kw))
+        return cache.get(id)
 
     def put(self, id, cls, obj):
         self.caches[cls.__name__].put(id, obj)
@@ -309,10 +312,11 @@ class CacheSet(object):
 
     def created(self, id, cls, obj):
         try:
-            self.caches[cls.__name__].created(id, obj)
+            cache = self.caches[cls.__name__]
         except KeyError:
-            self.caches[cls.__name__] = CacheFactory(*self.args, **self.kw)
-            self.caches[cls.__name__].created(id, obj)
+            cache = self.caches.setdefault(
+                cls.__name__, CacheFactory(*self.args, **self.kw))
+        cache.created(id, obj)
 
     def expire(self, id, cls):
         try:
